@@ -143,7 +143,7 @@ type Engine struct {
 	Crashy bool
 	// Exhaustive reports whether the tier enumerated a finite space completely.
 	Exhaustive func(tier string) bool
-	// RunTimeout is the watchdog limit of one run (default 60 s).
+	// RunTimeout is the watchdog limit of one run (default 180 s).
 	RunTimeout time.Duration
 	// ShrinkBudget caps shrink executions.
 	ShrinkBudget int
